@@ -61,6 +61,42 @@ CLAIMED["C08"] = (
     "A+B",
 )
 
+CLAIMED["C09"] = (
+    "property-based testing with a round-trip oracle: generated programs x layouts x formatting options; the formatting response is validated (null or one whole-document edit under an independent client model), applied, and the result re-lexed with an independent lexer (token kinds and literal values) and re-analysed (diagnostics by message and code-token ordinal)",
+    "Exploration: 20k (300k) (program, layout, options) cases through the real handler and broker.",
+    "Trusted: reference lexer, client text model, generator; comments restricted to leading positions as the property's quantifier states.",
+    "DESIGN.md section 6 C09",
+    "A",
+)
+CLAIMED["C10"] = (
+    "property-based testing + enumeration of every token gap of sampled programs: comments with distinct texts are placed by construction, the formatted result must contain each exactly once and in order; failures are keyed by the syntactic site of the gap, sites where the unchanged tree always loses the comment are recorded findings",
+    "Exploration: every gap of 40 (600) programs plus 30k (400k) random placements of 1-5 comments; 22 gap sites are recorded findings (KNOWN-FINDING lines), any other site, a duplication, an invented comment or a reordering is a violation.",
+    "Trusted: reference lexer's notion of a comment; site naming of the renderer (each site was all-kept or all-lost on the unchanged tree over 58k placements).",
+    "DESIGN.md sections 5.2 and 6 C10",
+    "A",
+)
+CLAIMED["C11"] = (
+    "property-based testing with metamorphic oracles: format(format(x)) = null, format(layout1(tokens)) = format(layout2(tokens)), outputs under two option sets differ only in the indentation unit, every line indented by a whole number of units, brace-stack nesting sanity, no edit when nothing changes",
+    "Exploration: 20k (300k) cases x 4 formatting requests each.",
+    "Trusted: generator and re-layout (same comments in the same gaps, different whitespace).",
+    "DESIGN.md section 6 C11",
+    "A",
+)
+CLAIMED["C15"] = (
+    "property-based testing: semantic token streams of arbitrary documents are decoded against the announced legend and matched against an independent lexer (well-formedness); for generated well-typed programs every identifier's kind and declaration modifier is compared with the binding known by construction",
+    "Exploration: 20k (300k) arbitrary documents + 20k (300k) well-typed programs. Occurrences whose global-scope name is also a local of the enclosing procedure form the recorded finding `shadowed-global-occurrence`; everything else must be exact.",
+    "Trusted: reference lexer, LSP position model, binding model of the generator.",
+    "DESIGN.md section 6 C15",
+    "A+B",
+)
+CLAIMED["C17"] = (
+    "property-based testing: folding ranges of generated programs in random layouts vs procedure extents known by construction (line of `proc` .. line of last token under the client's line model); well-formedness on arbitrary documents with LF/CRLF/CR line ends",
+    "Exploration: 30k (500k) programs + 15k (250k) arbitrary documents.",
+    "Trusted: generator, client line model.",
+    "DESIGN.md section 6 C17",
+    "A",
+)
+
 NOT_YET = "check not built yet (implementation in progress, see DESIGN.md section 8 build order)"
 NOT_APPLICABLE = {}
 
